@@ -1,9 +1,18 @@
 (* Model of pymoto/common/dyadcarrier.py : class DyadCarrier (C15), as the code is written
-   (tree at fix commits eba3b5f "dot products", 3674b14 "slicing", 3e6329a "[:, :] = 0", 843a4ae "contract_multi dtype").
+   (tree at fix commits eba3b5f "dot products", 3674b14 "slicing", 3e6329a "[:, :] = 0", 843a4ae+77d4285 "contract_multi dtype").
    Data: Gaussian integers (exact image of integer-valued float64 / complex128 arrays); every stored vector
    carries its own dtype flag (false = float64, true = complex128), the carrier carries self.dtype.
-   Part 1: the carrier-level model (hand-written, executable).  Part 2: the dense specification the
-   theorems compare it with.  Part 3: programs over a store.  Definitions only, no proofs. *)
+   Part 1: the carrier-level model (hand-written, executable): constructor / add_dyad (utils._parse_to_list, block
+           summation, 0-d promotion, length checks, zero vectors dropped, dtype promotion, fac), copy, +A, -A, +=, -=,
+           + - with scalar 0 / carrier / broadcast dense array, * scalar, T, conj, real, imag, todense, diagonal,
+           dot / @ from both sides, __getitem__, __setitem__, contract, contract_multi.  Errors are an enum.
+           numpy primitives (indexing with int / slice / integer array incl. CPython's slice.indices, broadcasting,
+           @, einsum contraction) are modelled by their documented semantics.
+           Not modelled (never generated): casting errors that cannot occur while the invariant "a complex stored
+           vector makes the carrier complex" holds (proved preserved), add_dyad with a complex fac, min()/max(),
+           multiplication by arrays, A += A on the same object, einsum broadcasting of length-1 axes.
+   Part 3: programs over a store of carriers.  Part 4: comparison with the implementation's observations.
+   (Part 2, the dense specification the theorems compare with, is Model/DyadSpec.v.)  Definitions only, no proofs. *)
 From Coq Require Import ZArith List Bool.
 From Pymoto Require Import Base.Gauss Base.Mat.
 Import ListNotations.
